@@ -39,6 +39,7 @@ def rows_list(s):
 
 
 class HistoryFamily:
+    pid = None
     targets = ['theories/Values.vo', 'theories/Syntax.vo', 'theories/Spec.vo', 'theories/Generated.vo', 'theories/Elab.vo',
                'theories/EvalPure.vo', 'theories/Run.vo', 'theories/Lazy.vo']
     header = "From EQL Require Import Base Values Syntax Spec Elab EvalPure Run Lazy.\nOpen Scope string_scope."
@@ -71,6 +72,10 @@ class HistoryFamily:
                         break
                 else:
                     guard = None
+            if guard is not None and rng.random() < 0.3:
+                # a conjunction as the first side of a disjunction: the conjunction is asked for its false rows too
+                lf = lambda: next(c for c in (g.cond(0) for _ in range(50)) if not mentions_big(c))
+                guard = ['or', ['and', lf(), lf(), rng.choice(['fn', 'op'])], lf(), rng.choice(['fn', 'op'])]
             pred = rng.random() < 0.5 or guard is None
             if rng.random() < (0.5 if big else 0.1):
                 guard, pred = None, False                                       # no condition at all: an(entity(x))
@@ -90,6 +95,10 @@ class HistoryFamily:
             else:
                 ops.append(['raise', i, rng.randint(1, len(dom))])
         ops.append(['full', rng.randrange(len(queries))])
+        if rng.random() < 0.35:
+            # the same query object evaluated to completion several times in a row (what an operator cache recorded during one
+            # evaluation is what the next one reads, what THAT one records is what the third one reads)
+            ops += [['full', ops[-1][1]]] * rng.randint(2, 3)
         return dict(kind='lazy1', heap=heap, dom=dom, queries=queries, ops=ops)
 
     def gen_shared_disjunction(self, rng, tier):
@@ -504,6 +513,12 @@ def with_histories(base_cls, share, make_case):
                                   '(evaluate fully / take k then close / aborted by an exception), every step compared with the answer on '
                                   'untouched data (' + make_case.__doc__.strip() + ')')
     return Mixed
+
+
+def lazy_history(H, rng, tier):
+    """one variable over a one-shot iterator, a pool of single-variable queries, a history of full / partial / aborted evaluations:
+    every full evaluation returns the filter of the domain, whatever was evaluated (or abandoned) before"""
+    return H.gen_lazy1(rng, tier)
 
 
 def falsy_shared_history(H, rng, tier):
